@@ -43,7 +43,10 @@ fn nest(ctx: usize, t: Ty) -> Ty {
         0 => t,
         1 => Ty::array(t),
         2 => Ty::list(t),
-        _ => Ty::map(Ty::string(), Ty::list(Ty::array(t))),
+        3 => Ty::map(Ty::string(), Ty::list(Ty::array(t))),
+        4 => Ty::map(Ty::string(), t),
+        5 => Ty::list(Ty::list(Ty::list(Ty::list(t)))),
+        _ => Ty::map(Ty::list(t.clone()), Ty::array(Ty::array(t))),
     }
 }
 
@@ -81,7 +84,7 @@ fn written_forms(pkg: &str) -> Vec<String> {
     v
 }
 
-fn make_case(ki: usize, pi: usize, position: usize, ctx: usize, wi: usize) -> Option<Case> {
+fn make_case(ki: usize, pi: usize, position: usize, ctx: usize, wi: usize, h: History) -> Option<Case> {
     let kind = KINDS[ki];
     let pkg = PKGS[pi];
     let forms = written_forms(pkg);
@@ -138,11 +141,14 @@ fn make_case(ki: usize, pi: usize, position: usize, ctx: usize, wi: usize) -> Op
         }
         expect.insert(f.id.clone(), json!({"symbols": syms, "key": doc.key()}));
     }
+    if h != History::Plain {
+        expect.insert("ops".into(), history_ops(&files, h));
+    }
     Some(Case {
         prop: PROP.into(),
         kind: format!("{kind:?}"),
         label: format!(
-            "target {kind:?} {pkg}.Tgt referenced as `{written}` in context {ctx} position {}",
+            "target {kind:?} {pkg}.Tgt referenced as `{written}` in context {ctx} position {} history {h:?}",
             ["return", "argument", "field", "constant"][position]
         ),
         files: files.iter().map(|f| (f.id.clone(), f.text.clone())).collect(),
@@ -213,18 +219,25 @@ pub fn check_case(case: &Case) -> CheckResult {
 
 pub fn run(tier: Tier, seed: u64) -> i32 {
     let stats = Stats::new(PROP, tier, seed);
-    let n = 3 * 3 * 4 * 4 * 3;
+    let nctx = tier.pick(4, 7);
+    let hists: Vec<History> = match tier {
+        Tier::Quick => vec![History::Plain],
+        Tier::Thorough => vec![History::Plain, History::Replaced, History::ExtraRemoved, History::Reversed],
+    };
+    let n = 3 * 3 * 4 * nctx * 3 * hists.len();
     super::drive(
         &stats,
         n,
         5,
         |i| {
+            let h = hists[i % hists.len()];
+            let i = i / hists.len();
             let wi = i % 3;
-            let ctx = (i / 3) % 4;
-            let position = (i / 12) % 4;
-            let pi = (i / 48) % 3;
-            let ki = i / 144;
-            let c = make_case(ki, pi, position, ctx, wi)?;
+            let ctx = (i / 3) % nctx;
+            let position = (i / (3 * nctx)) % 4;
+            let pi = (i / (12 * nctx)) % 3;
+            let ki = i / (36 * nctx);
+            let c = make_case(ki, pi, position, ctx, wi, h)?;
             stats.nontrivial(fnv(&c.label));
             if i % 37 == 0 {
                 stats.sample(json!({"label": c.label, "files": c.files}));
@@ -233,7 +246,7 @@ pub fn run(tier: Tier, seed: u64) -> i32 {
         },
         check_case,
     );
-    stats.space(json!({"space": "item kind x package depth x referencing position x nesting context x written form", "item_kinds": 3, "package_depths": 3, "positions": 4, "contexts": 4, "written_forms": "simple / fully qualified / partially qualified (packages of depth >= 2)", "files_per_project": 5}));
+    stats.space(json!({"space": "item kind x package depth x referencing position x nesting context x written form", "item_kinds": 3, "package_depths": 3, "positions": 4, "contexts": nctx, "histories": hists.len(), "written_forms": "simple / fully qualified / partially qualified (packages of depth >= 2)", "files_per_project": 5}));
     let hit = stats.outcome_count("type-symbol-resolving-to-item");
     finish(
         &stats,
